@@ -62,6 +62,8 @@ def _one(binary, seed, index, nops=None, skip=()):
         if skip:
             args.append(','.join(str(s) for s in skip))
     p = subprocess.run(args, stdout=subprocess.PIPE, stderr=subprocess.PIPE, text=True, timeout=120, env=_env())
+    if p.returncode == -14:   # SIGALRM: the probe's per-sequence watchdog
+        p.stderr += '\nMemorySanitizer: hang (a library call did not return within 30 s) %s/ace_time/unknown.h:0\n' % B.repo_src()
     return ('MemorySanitizer' in p.stderr or p.returncode not in (0,)), p
 
 
@@ -69,9 +71,14 @@ def _classify(stderr):
     """(class, attributed_to_repo): the first frame of the report that lies in /repo's sources names the class."""
     src = B.repo_src()
     kind = (re.findall(r'MemorySanitizer: ([a-z-]+)', stderr) or ['report'])[0]
-    m = re.search(re.escape(src) + r'/(?:ace_time/)?(?:[\w./]*/)?([\w]+\.(?:h|cpp)):(\d+)', stderr)
+    # the first frame of the STACK (not of the origin chain that follows it) that lies in /repo's sources
+    head = stderr.split('Uninitialized value was')[0]
+    m = re.search(re.escape(src) + r'/(?:ace_time/)?(?:[\w./]*/)?([\w]+\.(?:h|cpp)):(\d+)', head)
     if m:
-        return 'msan:%s@%s' % (kind, m.group(1)), True
+        return 'msan:%s@%s:%s' % (kind, m.group(1), m.group(2)), True
+    m = re.search(re.escape(src) + r'/(?:ace_time/)?(?:[\w./]*/)?([\w]+\.(?:h|cpp)):(\d+)', stderr)
+    if m:   # consumed in the probe, created in /repo: a value the library handed out without writing it
+        return 'msan:%s@origin:%s:%s' % (kind, m.group(1), m.group(2)), True
     return 'msan:%s' % kind, False
 
 
